@@ -16,7 +16,7 @@ Open Scope string_scope.
 Theorem C07_generated_shapes :
   facts_ok gen_facts = true /\
   boolop_eager_bool_fold = true /\ boolop_swallows_nonetype_typeerror = true /\ binop_sentinel_guard = true /\
-  call_allowed_by_identity = true /\ final_raise_typeerror = true /\
+  call_allowed_by_identity = true /\ final_raise_typeerror = true /\ typematcher_shapes_ok = true /\
   dispatch_order = ["Constant"; "List"; "Tuple"; "Name"; "Attribute"; "BoolOp"; "BinOp"; "UnaryOp"; "Compare"; "Call";
                     "comprehension"; "GeneratorExp"] /\
   map fst data_names = ["None"; "True"; "False"; "str"; "repr"; "fields"; "any"; "all"; "lower"; "upper"; "name"; "names";
@@ -56,12 +56,12 @@ Proof. intros R e v HL HF H. exact (interpreted_values gen_facts R e v eq_refl H
 
 (* all_defined implies that plain Python evaluation is defined, with the same value *)
 Theorem C07_strict_is_python : forall R e v, py_strict R e = Val v -> py_eval R e = Val v.
-Proof. intros R e v H. exact (strict_is_python R whitelist_roots false e std_data v H). Qed.
+Proof. intros R e v H. exact (strict_is_python R whitelist_roots false true e std_data v H). Qed.
 
 (* the compiled engine IS Python evaluation, in its own namespace (helpers, net, r wrapped, Type, builtins); the tie
    to CompiledSelector.match is the correspondence check *)
 Theorem C07_compiled : forall R e,
-  compiled R e = py_eval_gen R compiled_extra_names true false compiled_names e.
+  compiled R e = py_eval_gen R compiled_extra_names true typematcher_recursion_keeps_attrs false compiled_names e.
 Proof. reflexivity. Qed.
 
 (* ---- outside the language: rejected with an error ---- *)
@@ -143,15 +143,29 @@ Proof. repeat split; reflexivity. Qed.
 Definition w_chain := ECompare (int 1) [(CLt, fld "n"); (CLt, int 3)].       (* 1 < r.n < 3, n = 100 *)
 Theorem C07_prefix_refuted_first_link_only :
   in_language w_chain = true /\ fresh_vars w_chain = true /\ py_strict R1 w_chain = Val (VBool false) /\
-  fst (interp {| chained := false; ifs_honoured := true |} R1 std_data w_chain) = Val (VBool true) /\
+  fst (interp {| chained := false; ifs_honoured := true; tm_keeps_attrs := true |} R1 std_data w_chain) = Val (VBool true) /\
   interpreted R1 w_chain = Val (VBool false).
 Proof. repeat split; reflexivity. Qed.
 
 Definition w_ifs := EQuant false (EName "x") [Comp "x" (EList [int 1; int 2]) [ECompare (EName "x") [(CGt, int 5)]]].
 Theorem C07_prefix_refuted_ifs_ignored :       (* any(x for x in [1, 2] if x > 5) *)
   in_language w_ifs = true /\ fresh_vars w_ifs = true /\ py_strict R1 w_ifs = Val (VBool false) /\
-  fst (interp {| chained := true; ifs_honoured := false |} R1 std_data w_ifs) = Val (VBool true) /\
+  fst (interp {| chained := true; ifs_honoured := false; tm_keeps_attrs := true |} R1 std_data w_ifs) = Val (VBool true) /\
   interpreted R1 w_ifs = Val (VBool false).
+Proof. repeat split; reflexivity. Qed.
+
+(* Type.varint.denominator == 1 on a record whose only varint field sits in a nested record: the typed matcher must
+   hand its attribute path on when _op recurses into `record` / `record[]` fields.  If the recursion drops it (generated
+   fact false) the nested field's whole value (5) is compared with 1 instead of its attribute. *)
+Definition R2 : record :=
+  {| rec_name := cp "test/outer";
+     rec_fields := [("s", "string", VStr (cp "top"));
+                    ("sub", "record", VSub (cp "test/inner") [("num", "varint", VInt 5)])] |}.
+Definition w_attrs := ECompare (EAttr (EAttr (EName "Type") "varint") "denominator") [(CEq, int 1)].
+Theorem C07_prefix_refuted_attrs_dropped :
+  in_language w_attrs = true /\ fresh_vars w_attrs = true /\ py_strict R2 w_attrs = Val (VBool true) /\
+  fst (interp {| chained := true; ifs_honoured := true; tm_keeps_attrs := false |} R2 std_data w_attrs) = Val (VBool false) /\
+  interpreted R2 w_attrs = Val (VBool true) /\ compiled R2 w_attrs = Val (VBool true).
 Proof. repeat split; reflexivity. Qed.
 
 (* why all_defined speaks about EVERY operand: `False and r.n % 0 == 1` is False in Python, the interpreter evaluates
